@@ -1,6 +1,6 @@
 """C07 - two-key guard: gate table, token binding, cache consistency.
 
-Case: {"logic": name, "cache": bool, "reqs": [[prompt, executor_kind, assessor_kind], ...]}
+Case: {"logic": name, "cache": bool, "reqs": [[prompt, executor_kind, assessor_kind(, executor_confidence, assessor_confidence)], ...]}
 Real CoherentFeedForwardLoop (breaker off) with stub executor/assessor whose verdict is set per request.
 """
 import hashlib
@@ -27,12 +27,13 @@ ASSUMPTIONS = [
     "prompts contain no lone surrogates (hashing encodes the prompt)",
     "circuit breaker disabled here (C08 covers it); real-time cache TTL (300 s) is never reached within a case",
 ]
-EXHAUSTIVE_NOTE = {"quick": "6x7x7 verdict table x 4 prompts x cache on/off = 2352 cells, complete",
-                   "thorough": "6x7x7 verdict table x 4 prompts x cache on/off = 2352 cells, complete"}
+EXHAUSTIVE_NOTE = {"quick": "6x7x7 verdict table x (4 prompts x cache on/off + 3 confidence corners) = 3234 cells, complete",
+                   "thorough": "6x7x7 verdict table x (4 prompts x cache on/off + 3 confidence corners) = 3234 cells, complete"}
 
 _POOL = ["", "deploy", "deploy ", "Deploy", "a" * 300, "delete all", "x", "café ☃"]
 _prompt = st.one_of(st.sampled_from(_POOL), st.text(max_size=20))
-_req = st.tuples(_prompt, st.sampled_from(KINDS), st.sampled_from(KINDS + ["PERMIT", "PERMIT", "BLOCK"])).map(list)
+_conf = st.sampled_from([0.9, 0.9, 0.0, 1.0, 0.5])
+_req = st.tuples(_prompt, st.sampled_from(KINDS), st.sampled_from(KINDS + ["PERMIT", "PERMIT", "BLOCK"]), _conf, _conf).map(list)
 
 
 def strategy(tier):
@@ -45,6 +46,8 @@ def enumerate_cases(tier):
         for prompt in ("deploy", "", "café ☃", "x" * 200):
             for cache in (False, True):
                 yield {"logic": logic, "cache": cache, "reqs": [[prompt, e, a]]}
+        for ec, ac in ((0.0, 0.0), (0.0, 1.0), (1.0, 0.0)):
+            yield {"logic": logic, "cache": False, "reqs": [["confidence-corner", e, a, ec, ac]]}
 
 
 def judge(case):
@@ -57,8 +60,10 @@ def judge(case):
     if logic not in ("AND",):
         out.nontrivial = True
     out.label("logic:" + logic)
-    for i, (prompt, e, a) in enumerate(case["reqs"]):
+    for i, req in enumerate(case["reqs"]):
+        prompt, e, a = req[:3]
         ex.kind, ass.kind = e, a
+        ex.conf, ass.conf = (req[3], req[4]) if len(req) >= 5 else (0.9, 0.9)     # a verdict is a verdict at any reported confidence
         c0 = (ex.calls, ass.calls)
         try:
             r = loop.run(prompt)
